@@ -498,9 +498,11 @@ pub fn c16(rep: &mut Report) {
             let x_store = w.conn.stored();
             let x_handled = w.conn.handled();
             // (Receive Maximum of the resuming connection, a connection attempt that dies before the CONNACK first)
-            let mut variants: Vec<(Option<u16>, bool)> = if ver == Ver::V5 { vec![(None, false), (Some(1u16), false)] } else { vec![(None, false)] };
-            variants.push((None, true));
-            for (rm, failed_first) in variants {
+            // (..., the application re-applies its - default - option values after the restore / before reconnecting)
+            let mut variants: Vec<(Option<u16>, bool, bool)> = if ver == Ver::V5 { vec![(None, false, false), (Some(1u16), false, false)] } else { vec![(None, false, false)] };
+            variants.push((None, true, false));
+            variants.push((None, true, true));
+            for (rm, failed_first, reapply_options) in variants {
                 n += 1;
                 let r = guarded(|| {
                     let mut a = w.conn.clone();
@@ -541,6 +543,13 @@ pub fn c16(rep: &mut Report) {
                     }
                     let mut ta: Trace = vec![];
                     let mut tb: Trace = vec![];
+                    if reapply_options {
+                        // setting an option to the value it already has is a no-op for the session
+                        for c in [&mut a, &mut b] {
+                            c.set_offline_publish(w.cfg.offline);
+                            c.set_auto_pub_response(w.m.auto_pub);
+                        }
+                    }
                     if failed_first {
                         // the first attempt to resume never gets established (transport lost before the CONNACK):
                         // it must leave the session - original or restored - as it was
@@ -621,7 +630,7 @@ pub fn c16(rep: &mut Report) {
                             out.push(Violation { rule: "c16.restored-behaviour".into(), sig: format!("c16.restored-behaviour|{kind}"), detail: format!("[{name}] {d}"), config: name.clone(), history: hist.clone() });
                         }
                         if let Some((step, x, y)) = first_diff(&ta, &tb) {
-                            out.push(Violation { rule: "c16.resume-events".into(), sig: format!("c16.resume-events|{}|rm={rm:?}{}", step.split(' ').take(2).collect::<Vec<_>>().join(" "), if failed_first { "|after a failed attempt" } else { "" }), detail: format!("[{name}] resume (Receive Maximum {rm:?}{}): at '{step}' the original returns {x:?}, the restored object {y:?}", if failed_first { ", after a connection attempt that was closed before the CONNACK" } else { "" }), config: name.clone(), history: hist.clone() });
+                            out.push(Violation { rule: "c16.resume-events".into(), sig: format!("c16.resume-events|{}|rm={rm:?}{}", step.split(' ').take(2).collect::<Vec<_>>().join(" "), if reapply_options { "|after a failed attempt, options re-applied" } else if failed_first { "|after a failed attempt" } else { "" }), detail: format!("[{name}] resume (Receive Maximum {rm:?}{}): at '{step}' the original returns {x:?}, the restored object {y:?}", if failed_first { ", after a connection attempt that was closed before the CONNACK" } else { "" }), config: name.clone(), history: hist.clone() });
                         } else if sa != sb {
                             let (names, text) = debug_diff(&sa, &sb);
                             out.push(Violation { rule: "c16.state".into(), sig: format!("c16.state|{}", names.join("+")), detail: format!("[{name}] after resuming, the restored object differs from the original in {names:?}: {text}"), config: name.clone(), history: hist.clone() });
